@@ -419,10 +419,14 @@ Definition has_commit (acts : list action) : bool :=
 
 (* one call of a plain run:
    - ProcessStart(0) does not itself commit (the validator alone is not a quorum, nothing was buffered);
-   - a message is for the current height or below (nothing for a future height is delivered), arrives while
-     the height is started, and if it is rejected (no action returned) it leaves its counter cell as it was;
+   - a message (of any height) arrives while the height is started, does not take the TriggerSync path (a
+     precommit completing a FUTURE-height quorum is counted but not logged), and if it is rejected (no action
+     returned) it leaves its counter cell as it was;
    - a timeout arrives while the height is started, and if it does not match (stale) no rule is pending
      (process.go runs processLoop even for a stale timeout, and nothing of that call would be logged). *)
+Definition has_trigger (acts : list action) : bool :=
+  existsb (fun a => match a with ATriggerSync _ _ => true | _ => false end) acts.
+
 Definition good_body (E : env) (s : state) (n : N) (i : input) (s' : state) (acts : list action) : bool :=
   ok_input s i &&
   match i with
@@ -433,7 +437,7 @@ Definition good_body (E : env) (s : state) (n : N) (i : input) (s' : state) (act
        is_rnone (select (cfg_at E (s_h s) (in_round i) n) (set_nval s 0) None))
   | _ => match msg_pos i with
          | Some (h, r) =>
-             s_started s && (h <=? s_h s) &&
+             s_started s && negb (has_trigger acts) &&
              match acts with
              | [] => rdata_eqb (vc_cell (s_vc s) h r) (vc_cell (s_vc s') h r)
              | _ => true
